@@ -384,10 +384,15 @@ class Server:
                 if isinstance(y, RemoteException):
                     y = y.exc
                 if not fut.cancelled():
-                    if isinstance(y, BaseException):
-                        fut.set_exception(y)
-                    else:
-                        fut.set_result(y)
+                    try:
+                        if isinstance(y, BaseException):
+                            fut.set_exception(y)
+                        else:
+                            fut.set_result(y)
+                    except concurrent.futures.InvalidStateError:
+                        # The caller cancelled the future (timeout, or an
+                        # abandoned stream) after the check above.
+                        pass
                 fut.data['t2'] = perf_counter()
                 q_notify.put(1)
         finally:
